@@ -2,14 +2,15 @@
 # Determinism proof: every check, many VERIF_SEED values, each executed twice in separate
 # processes at worker counts 1, 5 and 16; the FINGERPRINT (trace digest + every aggregated
 # counter) must be identical across all six executions of a (check, seed) pair.
-# usage: tools/determinism.sh [seeds=300] [scale=0.05]   -> evidence/determinism.txt
+# usage: tools/determinism.sh [seeds=300] [scale=0.05]   -> evidence/determinism$SUFFIX.txt
 HERE="$(cd "$(dirname "$0")/.." && pwd)"
 SEEDS=${1:-300}; SCALE=${2:-0.05}
 BIN="$HERE/sim/target/release/hootsim"
 OUT=$(mktemp -d /dev/shm/hootdet.XXXXXX)
 VERIF_OUT="$OUT" "$HERE/check" C18 quick > /dev/null 2>&1 || true   # make sure the binary is built against /repo
 export VERIF_DIR="$HERE" VERIF_OUT="$OUT" VERIF_SCALE="$SCALE"
-IDS=$("$BIN" --list | cut -d' ' -f1)
+IDS=${VERIF_IDS:-$("$BIN" --list | cut -d' ' -f1)}   # VERIF_IDS="C09 C14": only these (result file gets the ids as a suffix)
+SUFFIX=${VERIF_IDS:+-$(echo $VERIF_IDS | tr ' ' '+')}
 one() { # id seed
   local id=$1 seed=$2 ref="" bad=0
   for jobs in 1 5 16 1 5 16; do
@@ -30,6 +31,6 @@ END=$(date +%s)
   grep -E '^DIVERGE' "$OUT/log.txt" | head -20
   grep -E 'VIOLATION|HARNESS' "$OUT/log.txt" | head -20
   for id in $IDS; do echo "  $id: $(grep -c "^OK? 0 $id " "$OUT/log.txt") of $SEEDS seeds identical across 6 executions"; done
-} > "$HERE/evidence/determinism.txt"
-cat "$HERE/evidence/determinism.txt"
+} > "$HERE/evidence/determinism$SUFFIX.txt"
+cat "$HERE/evidence/determinism$SUFFIX.txt"
 rm -rf "$OUT"
